@@ -99,7 +99,12 @@ def build(cid, spec):
         else:
             a = "%s TrImpl, delegate_by = ref" % spec["item_vis"]
             names = ["Tr", "TrImpl"]
-        inv = "#[::entrait::entrait(%s)] /*@inv*/\n%s trait Tr { fn f(&self) -> i32; }" % (a.strip(), req)
+        # (two thirds of the traits open their body with an inner attribute, or carry docs between the attribute and the visibility)
+        import zlib
+        flav = zlib.crc32(cid.encode()) % 3
+        inner = ["", "\n    //! inner docs of the trait\n    #![allow(unused_variables)]\n   ", ""][flav]
+        outer = ["", "", "/// docs of the trait\n#[allow(dead_code)]\n"][flav]
+        inv = "#[::entrait::entrait(%s)] /*@inv*/\n%s%s trait Tr {%s fn f(&self) -> i32; }" % (a.strip(), outer, req, inner)
 
     def obs(point):
         path = POINTS[point][1].replace("CID", cid)
